@@ -226,6 +226,14 @@ def parent(args):
     violations = []
     known_lines = []
     notes = []
+    extra_env = {}
+    if hasattr(prop, "prepare"):
+        try:
+            extra_env = prop.prepare(tier) or {}
+        except Exception as e:
+            print("HARNESS-ERROR: preparation failed (inconclusive): %s" % str(e)[-3000:])
+            return 2
+        os.environ.update(extra_env)
 
     if args.replay:
         case, v, kf = replay_file(prop, pid, args.replay, known)
@@ -279,8 +287,7 @@ def parent(args):
     env.setdefault("PYTHONHASHSEED", "0")
     env["OMP_NUM_THREADS"] = "1"
     env["MKL_NUM_THREADS"] = "1"
-    if hasattr(prop, "prepare"):
-        env.update(prop.prepare(tier) or {})
+    env.update(extra_env)
     procs = []
     for s in range(nsh):
         cmd = [sys.executable, "-m", "vt.run", pid, tier, "--worker", "--shard", str(s), "--seed",
